@@ -46,6 +46,8 @@ def run_binary(prog: Program, sc: Scenario) -> List[Path]:
     key = (prog.digest,) + sc.key()
     if key in _PATH_CACHE:
         return _PATH_CACHE[key]
+    if any(k[0] != prog.digest for k in _PATH_CACHE):
+        _PATH_CACHE.clear()  # one program at a time: the self-test feeds hundreds of variants through one process
     fi = prog.resolve_method(sc.cls, sc.method)
     if fi is None:
         raise AnalysisError("anchor vanished: %s.%s" % (sc.cls, sc.method))
